@@ -35,7 +35,7 @@ func (ex *Exec) mapHeap(st *State, comp string) string {
 	if t, ok := st.heap[comp]; ok {
 		return t
 	}
-	n := ex.initialComp(comp)
+	n := ex.initialCompIn(st, comp)
 	st.heap[comp] = n
 	return n
 }
@@ -168,7 +168,7 @@ func (ex *Exec) rangeNext(fr *Frame, st *State, x *ssa.Next) Value {
 	mc := it.mc
 	seen, ok := st.ghost[it.seen]
 	if !ok {
-		seen = ex.initialComp(it.seen)
+		seen = ex.initialCompIn(st, it.seen)
 	}
 	has := vc.define("rhas", sx("Array", mc.ks, "Bool"), sx("select", ex.mapHeap(st, mc.has), it.m.S))
 	k := vc.fresh("rk", mc.ks)
